@@ -5,6 +5,7 @@ import NitroVerif.Lemmas.StagesJs
 import NitroVerif.Lemmas.StagesDecls
 import NitroVerif.Lemmas.StagesGenD
 import NitroVerif.Lemmas.StagesIface
+import NitroVerif.Lemmas.CheckTsUnique
 import NitroVerif.Lemmas.CheckOpSoundUsed
 import NitroVerif.Lemmas.Imports
 import NitroVerif.Model.ExtResolve
@@ -22,8 +23,8 @@ theorem, the panic sites of the Rust function that it covers.
 
 Side conditions of the generation theorems (all decidable, all necessary — each has a kernel-checked witness below):
 `schemaOkB S` (unique type names, no field named `__typename`, union members are object types — a small part of C03's
-`SchemaValid`) and `ifaceOkB S` (objects implement their interfaces), both established by the schema checker for documents with
-unique type names (`schemaOk_of_checked`, `ifaceOk_of_checked`), `skipIncludeB S` (a user definition that shadows `@skip` /
+`SchemaValid`) and `ifaceOkB S` (objects implement their interfaces), both established by the schema checker — which since
+fix 8cdbacf also establishes unique type names (`uniqueTypeNames_of_checked`; `schemaOk_of_checked`, `ifaceOk_of_checked`), `skipIncludeB S` (a user definition that shadows `@skip` /
 `@include` still requires `if` — the real code panics otherwise), `noKeyClashB` (one response key = one field, with or
 without sub-selection, recursively — the FieldsInSetCanMerge rule the checker lacks: the open finding).
 -/
@@ -97,7 +98,8 @@ end
 section
 open NitroVerif.CheckTs
 
-/-- `checkTs_total`: `check_type_system_document` (type_system_checker/*.rs) has no panic site; its only unbounded loop is
+/-- `checkTs_total`: `check_type_system_document` (type_system_checker/*.rs) has no panic site (`check_unique_names`,
+    which runs first since fix 8cdbacf, is one bounded pass over the definitions); its only unbounded loop is
     the breadth-first search of `check_directive_recursion`, which the model runs with `|T| + 2` rounds of fuel and a
     SILENT out-of-fuel branch.  For every document, every fuel `n ≥ |T| + 2` and every behaviour `Z` of the out-of-fuel
     branch, the checker run with `(n, Z)` reports exactly what `checkSchema` reports: the branch is never evaluated —
@@ -378,13 +380,22 @@ open NitroVerif.CheckTs NitroVerif.ValidTs
 /-- `schemaDecls_lookups_total`: the panic sites of the schema / resolver declaration printers that depend on the input
     (transcribed by hand in `Lemmas/StagesDecls.lean`; `Model/SchemaDecls.lean` does not represent them): in a document
     the schema checker accepts, every name handed to `local_type_names.get(..).expect("Local type name not
-    generated")` — object and input field types, union members — is the name of a type definition; and when type names
-    are unique, `schema.get_type(name)…expect("Type system error")` finds every input object's own definition with all
-    its fields. -/
+    generated")` — object and input field types, union members — is the name of a type definition; and
+    `schema.get_type(name)…expect("Type system error")` finds every input object's own definition with all its fields,
+    because type names are unique: the checker reports every name that is repeated (fix 8cdbacf), the built-in-position
+    definitions being pairwise distinct (`builtinTypeNamesDistinct`, a fact about the constant `generate_builtins()`). -/
 theorem schemaDecls_lookups_total (T : TsDoc) (h : checkSchema T = []) :
     (∀ n ∈ declLookups T, n ∈ declKeys T) ∧
-    (uniqueTypeNames T = true → ∀ td ∈ typeDefs T, inputSelfLookupOk T td = true) :=
-  ⟨declLookups_defined h, fun hu => inputSelfLookup_ok hu⟩
+    (builtinTypeNamesDistinct T = true → ∀ td ∈ typeDefs T, inputSelfLookupOk T td = true) :=
+  ⟨declLookups_defined h, fun hb => inputSelfLookup_ok (uniqueTypeNames_of_accepted h hb)⟩
+
+/-- `uniqueTypeNames_of_checked`: the side condition "unique type names across kinds" of the generation theorems IS
+    established by the schema check (fix 8cdbacf, `check_unique_names`): in a document `check_type_system_document`
+    accepts, no two user type definitions share a name and none takes a built-in type's name; with pairwise distinct
+    built-in-position definitions all type names are pairwise distinct. -/
+theorem uniqueTypeNames_of_checked (T : TsDoc) (hb : builtinTypeNamesDistinct T = true) (h : checkSchema T = []) :
+    uniqueTypeNames T = true :=
+  uniqueTypeNames_of_accepted h hb
 
 /-- `type A { x: Int }  input A { y: Int }  type Query { a: A }` (with the built-in scalars) -/
 def dupKindDoc : TsDoc := builtinScalars ++ [
@@ -395,14 +406,17 @@ def dupKindDoc : TsDoc := builtinScalars ++ [
 /-- what `resolve_schema_extensions` makes of it (same definitions, grouped by kind) -/
 def dupKindResolved : TsDoc := (ExtResolve.resolve dupKindDoc).toOption.getD []
 
-/-- **New finding (real code panics: schema_type_printer/type_printer.rs, `expect("Type system error")` in the input
-    object printer).**  `uniqueTypeNames` cannot be dropped: `type A {…}  input A {…}` passes the extension resolver
-    (which rejects a repeated name of the SAME kind only) and the schema checker, and the printer of `input A` looks its
-    fields up in the FIRST definition named `A`, an object type. -/
-theorem schemaDecls_duplicate_kind_counterexample :
-    (ExtResolve.resolve dupKindDoc).toOption.isSome = true ∧ checkSchema dupKindResolved = [] ∧
+/-- **Pre-repair witness (the defect fix 8cdbacf repairs; the real code panicked: schema_type_printer/type_printer.rs,
+    `expect("Type system error")` in the input object printer).** `type A {…}  input A {…}` passes the extension
+    resolver (which rejects a repeated name of the SAME kind only) and the per-definition rules of the schema checker
+    (`checkSchemaItems` — all that `check_type_system_document` did before the fix), and the printer of `input A` looks
+    its fields up in the FIRST definition named `A`, an object type. Now the checker rejects the document
+    (`DuplicatedName` at the second `A`), so the printer is never reached: `uniqueTypeNames_of_checked`. -/
+theorem schemaDecls_duplicate_kind_prerepair :
+    (ExtResolve.resolve dupKindDoc).toOption.isSome = true ∧ checkSchemaItems dupKindResolved = [] ∧
     uniqueTypeNames dupKindResolved = false ∧
-    (typeDefs dupKindResolved).any (fun td => !inputSelfLookupOk dupKindResolved td) = true := by
+    (typeDefs dupKindResolved).any (fun td => !inputSelfLookupOk dupKindResolved td) = true ∧
+    checkSchema dupKindResolved = [(.DuplicatedName, {})] ∧ builtinTypeNamesDistinct dupKindResolved = true := by
   decide +kernel
 
 end
@@ -412,22 +426,22 @@ end
 section
 open NitroVerif.CheckTs NitroVerif.ValidTs
 
-/-- `ifaceOk_of_checked`: a resolved schema document with unique type names that `check_type_system_document` accepts
-    satisfies `ifaceOkB` — every object type has every field of every interface it declares, at a type whose possible
+/-- `ifaceOk_of_checked`: a resolved schema document (built-in-position type definitions pairwise distinct) that
+    `check_type_system_document` accepts satisfies `ifaceOkB` — every object type has every field of every interface it declares, at a type whose possible
     object types are among those of the interface field's type (the checker's `InterfaceFieldNotImplemented`,
     `FieldTypeMisMatchWithInterface` = the spec's covariance, and `InterfaceNotImplemented` for transitivity). So in the
     pipeline this side condition of `generate_total_partial` is discharged by the schema check. -/
-theorem ifaceOk_of_checked (T : TsDoc) (hu : uniqueTypeNames T = true) (h : checkSchema T = []) :
+theorem ifaceOk_of_checked (T : TsDoc) (hb : builtinTypeNamesDistinct T = true) (h : checkSchema T = []) :
     ifaceOkB ⟨T⟩ = true :=
-  ifaceOk_of_accepted hu h
+  ifaceOk_of_accepted (uniqueTypeNames_of_accepted h hb) h
 
-/-- `schemaOk_of_checked`: … and `schemaOkB`: unique type names are the hypothesis, the members of every union are
+/-- `schemaOk_of_checked`: … and `schemaOkB`: unique type names by `check_unique_names`, the members of every union are
     defined object types by the checker's `NonObjectTypeUnionMember` / `UnknownType`; "no type declares a field named
     `__typename`" stays a hypothesis because the abstract `TypeDef` can carry fields on any kind while the checker looks
     at the fields of object and interface types only (for those it reports every name starting with `__`). -/
-theorem schemaOk_of_checked (T : TsDoc) (hu : uniqueTypeNames T = true) (h : checkSchema T = [])
+theorem schemaOk_of_checked (T : TsDoc) (hb : builtinTypeNamesDistinct T = true) (h : checkSchema T = [])
     (hnr : Valid.noReservedFieldsB ⟨T⟩ = true) : schemaOkB ⟨T⟩ = true :=
-  schemaOk_of_accepted hu h hnr
+  schemaOk_of_accepted (uniqueTypeNames_of_accepted h hb) h hnr
 
 /-- C03's `SchemaValid` implies it as well -/
 theorem schemaOk_of_schemaValid (S : Schema) (h : Valid.SchemaValid S) : schemaOkB S = true :=
@@ -443,8 +457,10 @@ open NitroVerif.CheckOp NitroVerif.Valid NitroVerif.OpTypes NitroVerif.FragClosu
 
 /-- `pipeline_no_panic_partial`: for EVERY resolved schema document `T` and operation document `D` (whatever texts
     they were parsed from): if both checks report nothing, then under the explicit decidable side conditions —
-    schema: unique type names, no field named `__typename`, `skipIncludeB` (`schemaOkB` and `ifaceOkB` follow from the
-    schema check: `schemaOk_of_checked`, `ifaceOk_of_checked`; nothing else of C03's `SchemaValid` is needed); document:
+    schema: no field named `__typename`, `skipIncludeB`, and the built-in-position type definitions (the constant list
+    the CLI appends) pairwise distinct (`schemaOkB`, `ifaceOkB` AND unique type names across kinds follow from the
+    schema check: `schemaOk_of_checked`, `ifaceOk_of_checked`, `uniqueTypeNames_of_checked` — the latter since fix
+    8cdbacf; nothing else of C03's `SchemaValid` is needed); document:
     `noKeyClashB` (no response key shared
     by different fields / by a leaf and an object, at some bound `Dc` at which the document fits) — no model of a
     generation stage reaches a panic result:
@@ -457,16 +473,16 @@ open NitroVerif.CheckOp NitroVerif.Valid NitroVerif.OpTypes NitroVerif.FragClosu
     stage are rendered without panic for positions inside the file store) this covers every stage of `check` and
     `generate`. -/
 theorem pipeline_no_panic_partial (T : TsDoc) (D : Doc)
-    (hnr : noReservedFieldsB ⟨T⟩ = true) (hSI : skipIncludeB ⟨T⟩ = true) (hu : uniqueTypeNames T = true)
+    (hnr : noReservedFieldsB ⟨T⟩ = true) (hSI : skipIncludeB ⟨T⟩ = true) (hb : builtinTypeNamesDistinct T = true)
     (hT : checkSchema T = []) (hD : checkOp ⟨T⟩ D = []) (Dc d : Nat) (hK : noKeyClashB ⟨T⟩ D Dc d = true) :
     (∃ N M, ∀ fuel, N ≤ fuel → ∀ mfuel, M ≤ mfuel → ∀ x ∈ D, ∀ r, treeOf ⟨T⟩ D mfuel fuel x = some r → ∃ t, r = .ok t) ∧
     (∀ x ∈ D, ∀ r, resultTree ⟨T⟩ D x = some r → (∃ t, r = .ok t) ∨ r = .error .outOfFuel) ∧
     (∀ x ∈ D, ∃ ds, runtimeDefs D x = .ok ds) ∧
     (∀ n ∈ declLookups T, n ∈ declKeys T) ∧ (∀ td ∈ typeDefs T, inputSelfLookupOk T td = true) :=
-  ⟨generate_total_partial ⟨T⟩ D (schemaOk_of_checked T hu hT hnr) (ifaceOk_of_checked T hu hT) hSI hD Dc d hK,
-   generate_resultTree_no_rust_panic ⟨T⟩ D (schemaOk_of_checked T hu hT hnr) (ifaceOk_of_checked T hu hT) hSI hD Dc d hK,
+  ⟨generate_total_partial ⟨T⟩ D (schemaOk_of_checked T hb hT hnr) (ifaceOk_of_checked T hb hT) hSI hD Dc d hK,
+   generate_resultTree_no_rust_panic ⟨T⟩ D (schemaOk_of_checked T hb hT hnr) (ifaceOk_of_checked T hb hT) hSI hD Dc d hK,
    js_printers_total ⟨T⟩ D hnr hD,
-   (schemaDecls_lookups_total T hT).1, (schemaDecls_lookups_total T hT).2 hu⟩
+   (schemaDecls_lookups_total T hT).1, (schemaDecls_lookups_total T hT).2 hb⟩
 
 /-- the same, from the TEXTS of a one-file schema and a one-file operation document (`builtins` = the definitions the
     CLI appends): no text makes either parser model panic, and whenever both parse, the extension resolver succeeds and
@@ -475,19 +491,20 @@ theorem pipeline_no_panic_texts (schemaText opText : List Char) (builtins : TsDo
     (parseTs schemaText).isPanic = false ∧ (parseOp opText).isPanic = false ∧
     ∀ T0 T D, parseTs schemaText = .ok T0 → ExtResolve.resolve (T0 ++ builtins) = .ok T → parseOp opText = .ok D →
       checkSchema T = [] → checkOp ⟨T⟩ D = [] →
-      noReservedFieldsB ⟨T⟩ = true → skipIncludeB ⟨T⟩ = true → uniqueTypeNames T = true →
+      noReservedFieldsB ⟨T⟩ = true → skipIncludeB ⟨T⟩ = true → builtinTypeNamesDistinct T = true →
       ∀ Dc d, noKeyClashB ⟨T⟩ D Dc d = true →
       (∃ N M, ∀ fuel, N ≤ fuel → ∀ mfuel, M ≤ mfuel → ∀ x ∈ D, ∀ r, treeOf ⟨T⟩ D mfuel fuel x = some r → ∃ t, r = .ok t) ∧
       (∀ x ∈ D, ∀ r, resultTree ⟨T⟩ D x = some r → (∃ t, r = .ok t) ∨ r = .error .outOfFuel) ∧
       (∀ x ∈ D, ∃ ds, runtimeDefs D x = .ok ds) ∧
       (∀ n ∈ declLookups T, n ∈ declKeys T) ∧ (∀ td ∈ typeDefs T, inputSelfLookupOk T td = true) := by
   refine ⟨(parse_no_panic schemaText).2, (parse_no_panic opText).1, ?_⟩
-  · intro T0 T D _ _ _ hT hD hnr hSI hu Dc d hK
-    exact pipeline_no_panic_partial T D hnr hSI hu hT hD Dc d hK
+  · intro T0 T D _ _ _ hT hD hnr hSI hb Dc d hK
+    exact pipeline_no_panic_partial T D hnr hSI hb hT hD Dc d hK
 
 /-- the hypotheses of the composition are satisfiable together: the witness schema (as a resolved document) and document -/
 example : schemaOkB ⟨wSchema.items⟩ = true ∧ noReservedFieldsB ⟨wSchema.items⟩ = true ∧ skipIncludeB ⟨wSchema.items⟩ = true ∧
-    uniqueTypeNames wSchema.items = true ∧ checkSchema wSchema.items = [] ∧ checkOp ⟨wSchema.items⟩ wDoc = [] ∧
+    builtinTypeNamesDistinct wSchema.items = true ∧ uniqueTypeNames wSchema.items = true ∧
+    checkSchema wSchema.items = [] ∧ checkOp ⟨wSchema.items⟩ wDoc = [] ∧
     noKeyClashB ⟨wSchema.items⟩ wDoc 4 4 = true := by
   decide +kernel
 
@@ -505,8 +522,11 @@ OPEN — carried by K/O only (stated, not proved), after this file:
   SUFFICIENT (no `outOfFuel` at all) is false for the model on extreme inputs (`model_fuels_not_sufficient_witness`: a
   field type wrapped in more than `docSize + 64` list markers merged under one key) and not proved for ordinary ones.  `outOfFuel` is a limit of the model, not a
   behaviour of the Rust code (whose recursion is bounded by its stack only); K never met it.
-* the three schema-side hypotheses of `pipeline_no_panic_partial` that no check establishes: unique type names across
-  kinds, no field named `__typename` on a type of a kind without fields (vacuous for parsed documents), `skipIncludeB`.
+* the schema-side hypotheses of `pipeline_no_panic_partial` that no check establishes: no field named `__typename` on a
+  type of a kind without fields (vacuous for parsed documents), `skipIncludeB` (a user re-declaration of `@skip` /
+  `@include` stays allowed after fix 8cdbacf: `generate_shadowed_skip_counterexample`), and `builtinTypeNamesDistinct`
+  (about the constant list `generate_builtins()` = Int, Float, String, Boolean, ID; the K stream of C05 passes it as
+  data). "Unique type names across kinds" is no longer among them: `uniqueTypeNames_of_checked`.
 * `parse_config`, plugin hosts, the file system and the CLI process (C18's assumptions) have no theorem here, and their
   panic sites (cli/src/{main,generate,schema_loader,plugin_host}.rs, config-file/src/{node,execute}.rs, plugin/src,
   async-runtime/src, utils/src/relative_path.rs — 27 sites) are outside `translate/stage_sites.py`.
